@@ -94,6 +94,10 @@ CHECKS = {
  "C32": ("exploration", "reference matcher on user keys + delivery log compared as a multiset with the marker-resolved committed writes; race detector",
          "2-6 subscribers with hostile prefix/ignore patterns registered before 6 committers write hostile keys; each subscriber's deliveries must equal exactly the committed writes whose user key matches, once each, in non-decreasing version order; cancellation ends Subscribe.",
          "Registration confirmed via a verif-only subscriber count; !badger! keys ignored.", "4/C32"),
+
+ "C36": ("exploration", "managed-mode compaction driver + read-invariance oracle at arbitrary read timestamps against the MVCC model",
+         "Managed driver histories with CommitAt at non-monotonic and repeated timestamps, managed write batches with per-entry versions, flush/compaction steps incl. L0->L0, snapshots at arbitrary timestamps and SetDiscardTs movement; after every step reads at the newest timestamp, through snapshots and at sampled timestamps >= discardTs are compared with the model; two families: per-key monotone timestamps (must be clean) and fully arbitrary timestamps (known finding listed).",
+         "Timestamps above the discard ts; SetDiscardTs never above an open read ts.", "4/C36"),
 }
 
 def hooks_commits():
